@@ -410,4 +410,13 @@ example : (({ exValTx with overlay := [(1, ⟨.nums [1], none⟩)] } : Tx).getMa
     = [(1, some (.int 0))] := by decide
 example : ((exTx.deleteMatch exName ['a', '.', '*']).direct.store.map (·.1)) = [3, 1] := by decide
 
+/-- several commands in one transaction — pattern command, write, the IDENTICAL pattern command again (the class seeded
+change C13-9 broke; `tx_delete_match_same` and `tx_commands_keep_keys_distinct` hold in every state, so they apply to
+each command of such a sequence): the store key 0 "a.b" matches `a.b*`; `delete_match`, the key written again,
+`delete_match` again — it is gone from the transaction's view and from the directly updated store, while the
+non-matching key 1 stays; whole histories with `delete_match` in them are the `…_with_patterns` theorems of C03 / C04 -/
+example : (fun t : Tx => (t.scan exName ['a', '*'], (liveKeys t.direct)))
+      (((exTx.deleteMatch exName ['a', '.', 'b', '*']).set 0 (.tok 7) none).deleteMatch exName ['a', '.', 'b', '*'])
+    = ([2, 1], [2, 1]) := by decide
+
 end CashewsVerif.Props.C13
